@@ -67,7 +67,8 @@ pub fn make_module() -> KMap {
                 let expected_error = "|Number, Number|";
 
                 match ctx.instance_and_args(is_number, expected_error)? {
-                    (Number(a), [Number(b)]) if *b >= 0 => {
+                    // Shifting by the bit width or more would overflow (and panic in debug builds)
+                    (Number(a), [Number(b)]) if *b >= 0 && *b < i64::BITS as i64 => {
                         Ok((i64::from(a) $op i64::from(b)).into())
                     }
                     (instance, args) => {
